@@ -31,6 +31,9 @@ struct Doc {
     b: Option<i64>,
     tags: Vec<u64>,
     txt: String,
+    /// second text field with its own BM25 index: a text search fuses TWO ranked lists (RRF), so the
+    /// fused candidate list can be longer than the per-index breadth `top_k`
+    txt2: String,
 }
 
 const WORDS: [&str; 6] = ["alpha", "beta", "gamma", "delta", "omega", "sigma"];
@@ -338,7 +341,43 @@ fn gen_fl(r: &mut Rng, depth: u32, max_id: i64, allow_unknown: bool) -> Fl {
     }
 }
 
+/// A collection whose text search has MORE fused candidates than the per-index breadth `top_k`: the word
+/// occurs in `txt` of one half of the documents and in `txt2` of the other half (two BM25 indexes, two ranked
+/// lists, little overlap), documents of random length so relevance is uncorrelated with the id.
+fn gen_wide_case(r: &mut Rng) -> Vec<String> {
+    let n = 12 + r.usize(16);
+    let word = *r.pick(&WORDS);
+    let mut ops = vec![];
+    for i in 0..n {
+        let a = r.below(9);
+        let b = if r.chance(1, 4) { "-".to_string() } else { r.range(-5, 5).to_string() };
+        let nt = r.usize(3);
+        let tags: Vec<u64> = (0..nt).map(|_| r.below(7)).collect();
+        let filler = |r: &mut Rng| { let k = r.usize(4); let mut w: Vec<&str> = (0..k).map(|_| *r.pick(&WORDS)).filter(|x| *x != word).collect(); w.push(word); let p = r.usize(w.len()); let l = w.len() - 1; w.swap(p, l); w.join("_") };
+        let other = |r: &mut Rng| { if r.chance(1, 2) { "-".to_string() } else { let w: Vec<&str> = (0..1 + r.usize(2)).map(|_| *r.pick(&WORDS)).filter(|x| *x != word).collect(); if w.is_empty() { "-".to_string() } else { w.join("_") } } };
+        let both = r.chance(1, 8);
+        let (t1, t2) = if both { (filler(r), filler(r)) } else if (i + r.usize(2)) % 2 == 0 { (filler(r), other(r)) } else { (other(r), filler(r)) };
+        ops.push(format!("doc {a} {b} {} {t1} {t2}", if tags.is_empty() { "-".into() } else { join(tags, ",") }));
+    }
+    for _ in 0..r.usize(3) { ops.push(format!("rm {}", 1 + r.usize(n))); }
+    for _ in 0..16 {
+        let f = match r.below(10) {
+            0 => Fl::Id(Rq::Ge(1)),                                   // matches every document
+            1 => Fl::Not(Box::new(Fl::Id(Rq::In(vec![])))),           // matches every document
+            2 => Fl::Field(0, Rq::Ge(0)),                             // matches every document
+            3 => Fl::Not(Box::new(Fl::Id(Rq::In(vec![1 + r.usize(n) as i64])))),
+            4 => Fl::Id(gen_rq(r, 1, 1, n as i64)),
+            5 => Fl::Not(Box::new(gen_fl(r, 1, n as i64, false))),
+            _ => gen_fl(r, 2, n as i64, false),
+        };
+        let lim = match r.below(6) { 0 | 1 | 2 => 1, 3 | 4 => 2, _ => 1 + r.usize(4) };
+        ops.push(format!("M {lim} {word} {}", f.line()));
+    }
+    ops
+}
+
 fn gen_case(r: &mut Rng) -> Vec<String> {
+    if r.chance(1, 5) { return gen_wide_case(r); }
     let n = 3 + r.usize(10);
     let mut ops = vec![];
     for _ in 0..n {
@@ -348,7 +387,8 @@ fn gen_case(r: &mut Rng) -> Vec<String> {
         let tags: Vec<u64> = (0..nt).map(|_| r.below(7)).collect();
         let nw = 1 + r.usize(3);
         let words: Vec<&str> = (0..nw).map(|_| *r.pick(&WORDS)).collect();
-        ops.push(format!("doc {a} {b} {} {}", if tags.is_empty() { "-".into() } else { join(tags, ",") }, words.join("_")));
+        let txt2 = if r.chance(1, 2) { "-".to_string() } else { (0..1 + r.usize(2)).map(|_| *r.pick(&WORDS)).collect::<Vec<_>>().join("_") };
+        ops.push(format!("doc {a} {b} {} {} {txt2}", if tags.is_empty() { "-".into() } else { join(tags, ",") }, words.join("_")));
     }
     let nrm = r.usize(n / 3 + 1);
     for _ in 0..nrm {
@@ -374,7 +414,8 @@ fn gen_case(r: &mut Rng) -> Vec<String> {
             4..=6 => (1 + r.usize(3)).to_string(), // small pages: the limit usually cuts the result
             _ => (1 + r.usize(n)).to_string(),
         };
-        match r.below(10) {
+        match r.below(11) {
+            10 => ops.push(format!("M {} {} {}", 1 + r.usize(3), r.pick(&WORDS), f.line())),
             0 => ops.push(format!("q all - {}", f.line())),
             1..=3 => ops.push(format!("q first {lim} {}", f.line())),
             4..=6 => ops.push(format!("q last {lim} {}", f.line())),
@@ -440,6 +481,7 @@ async fn open_collection() -> Result<(AndaDB, Arc<Collection>), DBError> {
             c.create_btree_index_nx(&["b"]).await?;
             c.create_btree_index_nx(&["tags"]).await?;
             c.create_bm25_index_nx(&["txt"]).await?;
+            c.create_bm25_index_nx(&["txt2"]).await?;
             Ok(())
         })
         .await?;
@@ -453,13 +495,15 @@ async fn run_case(ops: &[String]) -> Result<(RefState, Outcome), String> {
     for op in ops {
         let toks: Vec<&str> = op.split(' ').filter(|s| !s.is_empty()).collect();
         match toks.as_slice() {
-            ["doc", a, b, tags, txt] => {
+            ["doc", a, b, tags, txt, rest @ ..] if rest.len() <= 1 => {
+                let txt2 = rest.first().map(|t| if *t == "-" { String::new() } else { t.replace('_', " ") }).unwrap_or_default();
                 let d = Doc {
                     _id: 0,
                     a: a.parse().map_err(|_| "bad doc")?,
                     b: if *b == "-" { None } else { Some(b.parse().map_err(|_| "bad doc")?) },
                     tags: if *tags == "-" { vec![] } else { tags.split(',').map(|t| t.parse().unwrap_or(0)).collect() },
-                    txt: txt.replace('_', " "),
+                    txt: if *txt == "-" { String::new() } else { txt.replace('_', " ") },
+                    txt2,
                 };
                 let id = c.add_from(&d).await.map_err(|e| format!("add: {e}"))?;
                 st.docs.insert(id, Doc { _id: id, ..d });
@@ -570,6 +614,54 @@ async fn run_case(ops: &[String]) -> Result<(RefState, Outcome), String> {
                 };
                 out.rows.push((op.clone(), fmt_res(&res), model_req, expect));
             }
+            ["M", lim, word, rest @ ..] => {
+                // Metamorphic search check, independent of which candidates the index stage produced (they are not
+                // observable beyond the page when the fused list is longer than `top_k`): logically equivalent
+                // filters give equal answers, and a filter that matches every live document gives the answer of
+                // the same search without a filter.
+                let limit: usize = lim.parse().map_err(|_| "bad limit")?;
+                let mut it = rest.iter();
+                let f = Fl::parse(&mut it).ok_or("bad filter")?;
+                if it.next().is_some() { return Err("trailing tokens".into()); }
+                if !within_budget(&f) || f.uses_unknown_index() { continue; }
+                let search = || Some(Search { text: Some(word.to_string()), ..Default::default() });
+                let run = |flt: Option<Fl>| { let c = c.clone(); async move {
+                    c.search_ids(Query { search: search(), filter: flt.map(|f| f.real()), limit: Some(limit) }).await
+                } };
+                let base = run(Some(f.clone())).await;
+                let variants: Vec<(&str, Fl)> = vec![
+                    ("And[f]", Fl::And(vec![f.clone()])),
+                    ("Or[f]", Fl::Or(vec![f.clone()])),
+                    ("Not(Not f)", Fl::Not(Box::new(Fl::Not(Box::new(f.clone()))))),
+                    ("And[f, f]", Fl::And(vec![f.clone(), f.clone()])),
+                ];
+                let mut expect = fmt_res(&base);
+                let mut got = fmt_res(&base);
+                for (name, v) in variants {
+                    if !within_budget(&v) { continue; } // the wrapped form may leave the complexity budget: not equivalent then
+                    let r = fmt_res(&run(Some(v)).await);
+                    if r != fmt_res(&base) { expect = format!("{name}: {r}"); got = format!("f: {}", fmt_res(&base)); break; }
+                }
+                let matches_all = st.docs.keys().all(|id| f.sat(&st, *id));
+                let n_match = st.docs.keys().filter(|id| f.sat(&st, **id)).count();
+                if expect == got && matches_all {
+                    let r = fmt_res(&run(None).await);
+                    if r != fmt_res(&base) { expect = format!("no filter: {r}"); got = format!("f (matches every document): {}", fmt_res(&base)); }
+                }
+                // soundness of the page itself: only matching ids, no repetition, at most `limit`
+                if expect == got && let Ok(v) = &base {
+                    let set: BTreeSet<u64> = v.iter().copied().collect();
+                    if set.len() != v.len() || v.len() > limit.min(MAX) || v.iter().any(|id| !f.sat(&st, *id)) {
+                        expect = "distinct matching ids, at most `limit`".into(); got = fmt_res(&base);
+                    }
+                }
+                let wide = c.search_ids(Query { search: search(), filter: None, limit: Some(MAX) }).await.map(|v| v.len()).unwrap_or(0);
+                let (factor, cap, _) = search_consts();
+                out.labels.push(format!("M:candidates-{}-top_k", if wide > (limit.min(MAX) * factor).min(cap) { "exceed" } else { "within" }));
+                out.labels.push(format!("M:shape:{} matches:{}", f.shape(), if matches_all { "all" } else if n_match == 0 { "none" } else { "some" }));
+                if base.as_ref().is_ok_and(|v| !v.is_empty()) { out.nontrivial = true; }
+                out.rows.push((op.clone(), got, String::new(), Some(expect)));
+            }
             _ => return Err(format!("bad op: {op}")),
         }
     }
@@ -595,7 +687,7 @@ fn check_case(rt: &tokio::runtime::Runtime, ops: &[String], model: &mut Option<M
     // state-changing ops precede queries in generated cases, but a replay/corpus file may interleave:
     // the model is given the *final* state only when all queries come last.
     let last_state_op = ops.iter().rposition(|o| o.starts_with("doc") || o.starts_with("rm")).unwrap_or(0);
-    let first_query = ops.iter().position(|o| o.starts_with("q ") || o.starts_with("s ") || o.starts_with("S ")).unwrap_or(ops.len());
+    let first_query = ops.iter().position(|o| o.starts_with("q ") || o.starts_with("s ") || o.starts_with("S ") || o.starts_with("M ")).unwrap_or(ops.len());
     let model_ok = last_state_op < first_query;
     if let Some(m) = model.as_mut() && model_ok {
         for l in st.model_lines() {
@@ -617,6 +709,7 @@ fn check_case(rt: &tokio::runtime::Runtime, ops: &[String], model: &mut Option<M
                 let key = match (&f, toks[0]) {
                     (Some(f), "q") if f.is_bare_btree_field() && got.starts_with("ok") => format!("query_{}:bare-btree-field:bounded-page-in-key-order", toks[1]),
                     (Some(f), "s") if f.is_bare_btree_field() && got.starts_with("ok") => "search_ids:bare-btree-field:bounded-page-in-key-order".to_string(),
+                    (Some(f), "M") => format!("search:equivalent-filters-differ:{}", f.shape()),
                     (Some(f), _) => format!("{}:{}", toks[0], f.shape()),
                     _ if toks[0] == "S" => "S:nofilter".into(),
                     _ => "unparsed".into(),
@@ -693,7 +786,7 @@ fn main() {
             let failing = rep.oracle_failures.last().cloned().unwrap();
             let fops: Vec<String> = failing["ops"].as_array().unwrap().iter().map(|x| x.as_str().unwrap().to_string()).collect();
             let small = shrink(fops, |cand| {
-                cand.iter().any(|o| o.starts_with("q ") || o.starts_with("s ") || o.starts_with("S ")) && {
+                cand.iter().any(|o| o.starts_with("q ") || o.starts_with("s ") || o.starts_with("S ") || o.starts_with("M ")) && {
                     let mut none = None;
                     let mut scratch = Report::new("C03", &args, "");
                     check_case(&rt, cand, &mut none, &mut scratch, false).0 > 0
